@@ -206,7 +206,7 @@ class SeqRun:
     def __init__(self, ck, sc, name, prog, it, term, log, scope, bmarks, slack=None):
         self.ck, self.sc, self.name, self.prog, self.slack = ck, sc, name, prog, slack
         self.it, self.term, self.log, self.scope = it, term, log, scope
-        self.bmarks = dict((n, it.hash_of_desc[d]) for n, d in bmarks.items())
+        self.bmarks = dict((n, [it.hash_of_desc[d] for d in ds]) for n, ds in bmarks.items())
         self.R = []
         seen = set()
         for d, v in log:
@@ -227,8 +227,9 @@ class SeqRun:
 
     def builder_oracle(self, marks, before, ctx):
         for (n, kind, _) in marks:
-            if n in self.bmarks and self.bmarks[n] in before:
-                self.viol('a builder ran although the hash of its compound is stored', compound=self.bmarks[n], marker=n, **ctx)
+            # (a builder called several times builds several compounds: it must not run when ALL of them are stored)
+            if n in self.bmarks and all(h in before for h in self.bmarks[n]):
+                self.viol('a builder ran although the hash of its compound is stored', compound=self.bmarks[n][0], marker=n, **ctx)
 
     def run(self, start, ops, backend, root, held=(), failed=()):
         try:
@@ -460,11 +461,11 @@ def run(ck):
                 tries += 1
                 style = tries % 3
                 if style == 0:
-                    prog = lg.generate(rng, max_tasks=6, max_b=2, max_comp=2, branch_depth=1, compound_bias=3.0, barrier_bias=0.5)
+                    prog = lg.generate(rng, max_tasks=6, max_b=2, max_comp=2, branch_depth=1, compound_bias=3.0, barrier_bias=0.5, kw_bias=0.5)
                 elif style == 1:
-                    prog = lg.generate(rng, max_tasks=7, max_b=3, max_comp=3, branch_depth=1, compound_bias=2.0, barrier_bias=1.2)
+                    prog = lg.generate(rng, max_tasks=7, max_b=3, max_comp=3, branch_depth=1, compound_bias=2.0, barrier_bias=1.2, kw_bias=0.7)
                 else:
-                    prog = lg.generate(rng, max_tasks=6, max_b=1, max_comp=2, branch_depth=0, compound_bias=4.0, barrier_bias=0.3)
+                    prog = lg.generate(rng, max_tasks=6, max_b=1, max_comp=3, branch_depth=0, compound_bias=4.0, barrier_bias=0.3, kw_bias=0.7)
                 log = lg.seq_oracle(prog)[0]
                 if not any(d[1].startswith('comp') for d, _ in log):
                     continue
